@@ -1441,6 +1441,11 @@ val switches : dec_mode -> bool
 
 val holds_C16_return_list : vt -> func -> vt -> bool
 
+val split_switch :
+  dec_mode list -> ((dec_mode list * dec_mode) * dec_mode list) option
+
+val holds_C16_return_list_any : vt -> func -> vt -> bool
+
 val kf1_restorable : term -> bool
 
 val kf1_C11_narrow : term -> bool
